@@ -331,6 +331,12 @@ def run(chk):
         "same-nets-under-several-parity-gates": {"a": ("input", []), "b": ("input", []), "g1": ("xor", ["a", "b"]), "g2": ("xnor", ["a", "b"]), "g3": ("xor", ["a", "b"]), "o": ("and", ["g1", "g2", "g3"])},
         "parity-gates-on-one-bus": {"a": ("input", []), "b": ("input", []), "c": ("input", []), "p": ("xor", ["a", "b", "c"]), "q": ("xnor", ["a", "b", "c"]), "r": ("xnor", ["a", "b", "c"]),
                                     "o": ("or", ["p", "q", "r"])},
+        # distinct fan-in sets whose names join to the same string with '_' ({a_b, c}, {a, b_c}, {a, b, c}), under gates of one type
+        "fanin-names-joining-to-one-string": {"a": ("input", []), "b": ("input", []), "c": ("input", []), "a_b": ("input", []), "b_c": ("input", []),
+                                              "g1": ("and", ["a_b", "c"]), "g2": ("and", ["a", "b_c"]), "g3": ("and", ["a", "b", "c"]),
+                                              "x1": ("xor", ["a_b", "c"]), "x2": ("xor", ["a", "b_c"]), "n1": ("nor", ["a", "b_c"]), "n2": ("nor", ["a_b", "c"])},
+        "structurally-identical-gates": {"a": ("input", []), "b": ("input", []), "g1": ("nand", ["a", "b"]), "g2": ("nand", ["b", "a"]), "x1": ("xnor", ["a", "b"]), "x2": ("xnor", ["a", "b"]),
+                                         "o": ("or", ["g1", "g2", "x1", "x2"])},
         "adversarial-names": {"a": ("input", []), "b_c": ("input", []), "a_b": ("input", []), "c": ("input", []), "xor_inv_g": ("input", []),
                               "g": ("xnor", ["a", "b_c", "xor_inv_g"]), "h": ("xor", ["a_b", "c", "a"])},
     }
@@ -486,6 +492,35 @@ def run(chk):
             ok = r[0] == "return" and isinstance(r[1], dict) and r[1] == want and all(isinstance(x, bool) for x in r[1].values())
             chk.ob("C01.R.model-readback", f"solve::{case}", ok and seen_asm == [asm], file=FILE, func="solve", line=fs.node.lineno,
                    fact={"model": model, "ids": ids, "result": str(r[1])[:200], "assumptions_forwarded": seen_asm == [asm]}, expect=want)
+    # ---- F: the same encoder over the repository's OWN Circuit class ("full stack") ----------------------------
+    # everything above queried the reference circuit model; here cnf() asks circuit.py's fanin / type / nodes, so a defect in a
+    # primitive that only the encoder exposes (a self-loop dropped from its own fan-in ...) shows
+    from ..pkgenv import Package as _Pkg, build_full
+
+    PF = _Pkg(repo, full_stack=True)
+    full_models = {f"cyclic::{k_}": sp_ for k_, sp_ in cyclic.items()}
+    full_models.update({f"model::{k_}": sp_ for k_, sp_ in multi.items() if k_ in ("constants", "single-input-demotion", "same-nets-under-several-parity-gates", "adversarial-names")})
+    n_full = 0
+    for mname, spec in full_models.items():
+        if any("." in n_ for n_ in spec):
+            continue
+        try:
+            cf = build_full(PF, spec)
+        except ModelRaise as e_:
+            chk.ob("C01.F.full-stack", f"cnf::{mname}", False, file="circuit.py", func="Circuit.add/connect", fact={"problem": "the model circuit cannot be built through the public API", "error": str(e_)[:120]})
+            continue
+        r = PF.call(FILE, "cnf", cf)
+        n_full += 1
+        if r[0] != "return":
+            chk.ob("C01.F.full-stack", f"cnf::{mname}", False, file=FILE, func="cnf", line=fi.node.lineno, fact={"raises": str(r)[:120]})
+            continue
+        formula, variables = r[1]
+        types = {n_: t_ for n_, (t_, f_) in spec.items()}
+        fanin = {n_: list(f_) for n_, (t_, f_) in spec.items()}
+        ok, detail = check_consistent_valuations(formula, variables, types, fanin)
+        chk.ob("C01.F.full-stack", f"cnf::{mname}", ok, file=FILE, func="cnf", line=fi.node.lineno, fact=detail, expect="models restricted to the nodes == the consistent valuations (circuit.py's own queries underneath)")
+    chk.floor("full-stack encoder evaluations", n_full, 20)
+
     # ---- P: solve() end to end (cnf + add_assumptions + construct_solver + solve from source, DPLL solver model) ----
     from ..corpus import corpus as _corpus
     from ..refmodel import build as _build
